@@ -108,25 +108,40 @@ def lookupOf (s : St) (c : Nat) : Option (Except Bool Nat) :=
   | some (_, .second _) => some (.error false)
   | some (_, .canon r) => (getRa s r).map (fun ra => .ok ra.tph)
 
-/-- the model's `stepSend` is the translated guard applied to the model's channel lookup -/
+/-- ibc core's own verdict below the genesis-bridge wrapper (`SendPacket`: the channel's client must be active):
+    the canonical client of the channel's rollapp is frozen by a hard fork -/
+def coreRefuses (s : St) (c : Nat) : Bool :=
+  match s.chans.find? (·.1 == c) with
+  | some (_, .canon r) => (match getRa s r with | some ra => ra.frozen | none => false)
+  | _ => false
+
+theorem sendVerdict_eq (s : St) (x : Option Ra) :
+    (match x with
+      | none => (s, Res.err)
+      | some ra => if ra.tph == 0 then (s, Res.err) else if ra.frozen then (s, .err) else (s, .ok)) =
+    (match x.map (fun ra => (Except.ok ra.tph : Except Bool Nat)) with
+      | none => (s, Res.err)
+      | some l => (s, if Gen.GB.transferAllowed l && !(match x with | some ra => ra.frozen | none => false) then Res.ok else .err)) := by
+  cases x with
+  | none => rfl
+  | some ra =>
+    simp only [Option.map_some, Gen.GB.transferAllowed, Gen.GB.isTransferEnabled]
+    by_cases h : ra.tph = 0 <;> by_cases hf : ra.frozen = true <;> simp [h, hf]
+
+/-- the model's `stepSend` is the translated guard applied to the model's channel lookup, followed by ibc core's
+    test of the client -/
 theorem stepSend_eq (s : St) (c : Nat) :
     stepSend s c = match lookupOf s c with
       | none => (s, .err)
-      | some l => (s, if Gen.GB.transferAllowed l then .ok else .err) := by
-  unfold stepSend lookupOf
+      | some l => (s, if Gen.GB.transferAllowed l && !coreRefuses s c then .ok else .err) := by
+  unfold stepSend lookupOf coreRefuses
   generalize List.find? (fun x => x.1 == c) s.chans = o
   rcases o with _ | ⟨n, k⟩
   · rfl
   · cases k with
     | plain => rfl
     | second r => rfl
-    | canon r =>
-      dsimp only
-      cases hg : getRa s r with
-      | none => rfl
-      | some ra =>
-        simp only [Option.map_some, Gen.GB.transferAllowed, Gen.GB.isTransferEnabled]
-        by_cases h : ra.tph = 0 <;> simp [h]
+    | canon r => exact sendVerdict_eq s (getRa s r)
 
 /-! ### the translated checks on concrete inputs -/
 
